@@ -83,7 +83,7 @@ def run(repo, rep, tier):
     func = repo.func(VE)
     res = L.emission(repo, VE)
     rep.count("functions_interpreted")
-    steps, rest = L.wrapper_chain(res.value)
+    steps, rest = L.wrapper_chain(element_value(res))
     _order(rep, func, steps, rest)
     _chain(rep, func, steps, rest)
     _keyed(repo, rep, func)
@@ -148,11 +148,23 @@ PINNED = [
 ]
 
 
+def element_value(res):
+    """What visit_element returns for an element that is not itself a macro
+    definition.  (A define-macro element returns a reference to its macro;
+    the macro body -- registered with the element's on-error wrapper -- is
+    the same chain from the slot level inwards.)"""
+    dm = "has ns[(METAL, 'define-macro')]"
+    top = res.value
+    if L.decides_on(top, dm):
+        top = L.branch(top, dm, False)
+    return top
+
+
 def order(repo, rep):
     """wrapper nesting (R01.1), callable by neighbours"""
     func = repo.func(VE)
     res = L.emission(repo, VE)
-    steps, rest = L.wrapper_chain(res.value)
+    steps, rest = L.wrapper_chain(element_value(res))
     _order(rep, func, steps, rest)
 
 
